@@ -15,8 +15,10 @@ MODEL_TRUST = [
 
 
 V0_NOTE = ("Theorems cover every type expression and every value (induction, no depth bound) over environments of "
-           "headerless declarations (built-in types, tuples, derived structs/enums without evolution steps); records with "
-           "evolution headers are covered by the correspondence families, not yet by a theorem.")
+           "well-formed declarations (EnvWF: built-in types, tuples, derived structs/enums with or without evolution steps, i.e. "
+           "also the chunked layout with its evolution header, read back by the same definition: rt_full). EnvWF is the decidable "
+           "check declWFb, evaluated in Props/C02 on the repository's Point and by the driver on every generated declaration. "
+           "Reading data of an older definition is C03.")
 
 PROPS = {
     "C01": {
@@ -75,7 +77,6 @@ PROPS = {
         "rule": "every encoded value followed by a random suffix: decode through an explicit context, drain it, compare with the suffix; "
                 "all (writer, reader) version pairs of the generated histories with stored version >= 1 (and version 0 without removals)",
         "trusted": MODEL_TRUST,
-        "partial": "evolved records: correspondence only",
         "level_text": "Proof: the continuation t in the round-trip theorems is arbitrary, so decoding consumes exactly the encoding "
                       "(consumes_exactly, sequential, and the same for the faithful context).",
         "level_note": V0_NOTE,
@@ -86,7 +87,7 @@ PROPS = {
         "rule": "every strict prefix (all cut points up to 96 bytes, sampled beyond) of every encoding generated by ty/decl, and of every "
                 "cross-version encoding of hist with stored version >= 1, must be Err on the implementation",
         "trusted": MODEL_TRUST,
-        "partial": "evolved records: correspondence only",
+        "partial": "cross-version reads (data of an older definition): the statement about prefixes is checked by correspondence only",
         "level_text": "Proof: for every decoder program a successful run is unchanged by appending data (run_extends, induction on the "
                       "operation tree) and cursors stay in their windows (run_AllWF); with consumption this gives: no strict prefix of an "
                       "encoding decodes to a value (prefix_rejected).",
@@ -102,9 +103,9 @@ PROPS = {
                 "structs and enums from a fixed seed), each compiled with the real derive macro and interpreted by the model from its "
                 "S-expression; >= 30 values each; bytes, decoded values and error variants compared. distinct = distinct (declaration, value)",
         "trusted": MODEL_TRUST + ["harness/gen/gen_decls.py prints each declaration twice (Rust source and model S-expression)"],
-        "partial": "round trip of declarations with evolution steps: correspondence only (byte layout of the chunked form is a theorem)",
-        "level_text": "Proof + translation validation: for declarations without evolution steps the derived round trip (at any nesting and "
-                      "recursion, optional / transient fields, sorted / transient constructors) is a corollary of rt_all; the record layouts "
+        "level_text": "Proof + translation validation: the derived round trip (at any nesting and recursion, optional / transient fields, "
+                      "sorted / transient constructors, and evolution steps with the chunked layout and its header) is a corollary of "
+                      "rt_full for every declaration passing the decidable check declWFb; the record layouts "
                       "(headerless and chunked) are theorems; the repository's Point byte vector is proved by evaluation. The macro expansion "
                       "is validated against the model's interpretation of the same declaration on every run (bytes, values, errors).",
         "level_note": V0_NOTE,
@@ -120,7 +121,7 @@ PROPS = {
                 "model, top level with following data and embedded between a u16 and a String sibling (embedded + stored version 0 + removal "
                 "excluded, DESIGN 9.1). distinct = distinct (history, w, r, value) accepted by the implementation",
         "trusted": MODEL_TRUST + ["the generator only emits legal histories (chunk-0 order fixed; removal of the last serialized field of a chunk)"],
-        "partial": "the general equation operational = table for all legal histories is not yet a theorem (needs the chunked-record round trip); "
+        "partial": "the general equation operational = table for all legal histories is not yet a theorem (the same-definition case is: rt_full); "
                    "evolution on enum variants is exercised in the decl family (same-version) only",
         "level_text": "Proof (partial): the documented outcome is a function (expectedRead) written without reference to bytes; its clauses — "
                       "default for an added field, wrap / unwrap for made-optional, absent for a removed optional field, the two named errors, "
@@ -208,11 +209,11 @@ PROPS = {
                 "transient names in the header equal and unequal to field values (decl: DedupR, DedupR2, DedupMix, DedupNest). "
                 "distinct = sequences with at least one repeat",
         "trusted": MODEL_TRUST,
-        "partial": "placements inside records with evolution headers: correspondence only",
-        "level_text": "Proof (partial): first occurrence = plain string + registration, repeat = zz(-id) of at most five bytes, ids in "
+        "level_text": "Proof: first occurrence = plain string + registration, repeat = zz(-id) of at most five bytes, ids in "
                       "first-occurrence order, unknown id = InvalidStringId, a no-repeat stream is byte-identical to the plain stream, and the "
-                      "round trip in any placement over headerless records with writer and reader tables equal at corresponding points "
-                      "(the invariant carried by rt_all).",
+                      "round trip in any placement over well-formed records — evolution headers (whose removed names are deduplicated "
+                      "strings) and chunk regions included — with writer and reader tables equal at corresponding points (the "
+                      "invariant carried by rt_full).",
         "level_note": V0_NOTE,
     },
     "C15": {
